@@ -693,16 +693,16 @@ def _damage_cases(tier, seed, prop):
                                 level = 3 if len(sizes) == 3 else 2
                         for dmg in damage_sets(base, level):
                             yield dict(base, damage=dmg)
-            if not quick:
-                # v1 metafiles with BEP 47 padding entries; the parent directory as the content path
-                for src, via in (("ref-align", "root"), ("ref-align-padlast", "root"), ("tf", "parent"), ("ref", "parent")):
-                    if version != 1 and src.startswith("ref-align"):
-                        continue
-                    for sizes in special:
-                        base = {"prop": prop, "seed": seed, "pl": pl, "version": version, "src": src, "layout": layout_of("flat", list(sizes)),
-                                "via": via}
-                        for dmg in damage_sets(base, 1):
-                            yield dict(base, damage=dmg)
+            # v1 metafiles with BEP 47 padding entries; the parent directory as the content path
+            extra = [("ref-align", "root")] if quick else [("ref-align", "root"), ("ref-align-padlast", "root"), ("tf", "parent"), ("ref", "parent")]
+            for src, via in extra:
+                if version != 1 and src.startswith("ref-align"):
+                    continue
+                for sizes in (special[:7] if quick else special):
+                    base = {"prop": prop, "seed": seed, "pl": pl, "version": version, "src": src, "layout": layout_of("flat", list(sizes)),
+                            "via": via}
+                    for dmg in damage_sets(base, 1):
+                        yield dict(base, damage=dmg)
 
 
 _DAMAGE_RULE = ("damaged payloads: metafiles v1 / v2 / hybrid from torrentfile's creators and the reference encoder over single files and file "
@@ -753,14 +753,20 @@ def r_c04(acc, case):
 # ----------------------------------------------------------------------------------------------- C16
 def _c16_run(acc, case, ctx):
     want, verdicts = oracle(ctx)
-    fam = family(case) + (":padded" if case["src"].startswith("ref-align") else "")
+    fam = family(case)
     kind, val, detail, pieces = run_checker(ctx, case)
     if kind != "value":
         acc.fail(f"C16:{fam}:{kind}:{val}:{input_class(case)}", case, detail, f"{want:.6f}")
         return
     word, d = diagnose(case, pieces, verdicts)
     if not isinstance(val, (int, float)) or isinstance(val, bool) or abs(val - want) > EPS:
-        acc.fail(f"C16:{fam}:wrong-share:{where(case, ctx, word, d)}", case, f"recheck reports {val}; {word}: {_show(d)}", f"{want:.6f}")
+        if word == "piece-verdicts-agree":
+            # every piece got the right verdict, exactly once: the arithmetic differs.  With BEP 47 padding entries the
+            # bytes of the padding files are counted as if they were payload.
+            spot = "padding-bytes-counted-as-payload" if case["src"].startswith("ref-align") else "piece-verdicts-agree"
+        else:
+            spot = where(case, ctx, word, d)
+        acc.fail(f"C16:{fam}:wrong-share:{spot}", case, f"recheck reports {val}; {word}: {_show(d)}", f"{want:.6f}")
     elif d.get("bad accepted") or d.get("good rejected"):
         # the share happens to be right although pieces got the wrong verdict (errors cancelling out).  Pieces merely not
         # checked / checked twice while the percentage is right are not counted: the property speaks about the percentage.
